@@ -50,6 +50,7 @@ Inner nodes are named as tuple of particles.
 
 """
 import itertools
+import os
 
 import numpy as np
 
@@ -129,10 +130,8 @@ class CalAngleData(dict):
         pi = np.stack(pi).transpose((1, 0, 2)).reshape((-1, 4))
         np.savetxt(file_name, pi)
         if save_charge:
-            np.savetxt(
-                file_name[::-1].replace(".", ".c", 1)[::-1],
-                self["charge_conjugation"],
-            )
+            base, ext = os.path.splitext(file_name)
+            np.savetxt(base + "c" + ext, self["charge_conjugation"])
 
 
 def struct_momentum(p, center_mass=True) -> dict:
